@@ -6,6 +6,7 @@ use std::cmp;
 verus! {
 
 //@include spec/syntax.rs
+//@include prelude/str_model.rs
 //@include spec/syntax_from.rs
 //@include spec/grammar.rs
 //@fmtfns
